@@ -912,7 +912,7 @@ def evaluate_intersections(ctx, n_blocks, seed):
     rng = np.random.default_rng([seed, 161616])
     tol = 1e-14
     for blk in range(n_blocks):
-        fam = ["grid8", "grid8", "uniform", "touching", "shallow"][blk % 5]
+        fam = ["grid8", "grid8", "uniform", "touching", "shallow", "axis"][blk % 6]
         n, m = int(rng.integers(2, 9)), int(rng.integers(2, 9))
         if fam == "grid8":
             A = rng.integers(-8, 17, size=(n, 2, 2)) / 8.0
@@ -920,6 +920,23 @@ def evaluate_intersections(ctx, n_blocks, seed):
         elif fam == "uniform":
             A = rng.uniform(-1, 2, size=(n, 2, 2))
             B = rng.uniform(-1, 2, size=(m, 2, 2))
+        elif fam == "axis":
+            # exactly vertical / horizontal segments (lattice bonds of square and honeycomb cells) in the FIRST argument, crossed by
+            # generic dyadic segments in the second; and the other way round in the next block of this family
+            A = np.zeros((n, 2, 2)); B = np.zeros((m, 2, 2))
+            for i in range(n):
+                c0 = int(rng.integers(-4, 13)) / 8.0
+                lo, hi = sorted(rng.choice(np.arange(-8, 17), size=2, replace=False) / 8.0)
+                A[i] = [[c0, lo], [c0, hi]] if i % 2 == 0 else [[lo, c0], [hi, c0]]
+                if rng.integers(0, 2):
+                    A[i] = A[i][::-1]
+            for j in range(m):
+                i = int(rng.integers(0, n))
+                mid = (A[i, 0] + A[i, 1]) / 2 if j % 3 else rng.integers(-8, 17, size=2) / 8.0
+                d = np.array([int(rng.integers(1, 9)), int(rng.integers(1, 9)) * int(rng.choice([-1, 1]))]) / 16.0
+                B[j] = [mid - d, mid + d * int(rng.integers(1, 3))]
+            if (blk // 6) % 2:
+                A, B = B, A
         elif fam == "shallow":
             # segments that really cross, in general position, at a shallow angle 2^-k (k = 16..26), none of them axis-aligned:
             # the cross product of the directions is ~1e-5..1e-8, far above the 1e-14 parallel tolerance
